@@ -18,7 +18,8 @@ import (
 
 func init() { register("c02", checkC02) }
 
-const c02Cfg = "100-11111-8"
+// c02Cfg is replaced at the start of checkC02/checkC14 by the token regenerated from the source (gCurCfg).
+var c02Cfg = "100-11111-8-1"
 
 // ---- program generator ----
 
@@ -481,6 +482,7 @@ func checkC02(c *lib.Ctx) {
 	r := c.R
 	r.Rule = "programs: hand-written depth-4 pipelines, PRNG pipelines of 4…6 mutually independent requests (all 24/120/720 completion orders) and PRNG-drawn pipelines (depth 1…30) over 25 request kinds on open, closed-before, never-issued and wrong-kind handles and on existing/missing paths, ids sequential, descending, random or all equal; every instrumented call (request server: all handler methods; os-backed server: ReadAt/WriteAt/Stat/Readdir/Chmod of the opened files) is held on a gate and the harness opens the gates in a chosen order: ALL feasible completion orders for the small programs, PRNG-chosen orders (uniform, fifo, lifo, earliest-held-longest) for the deep ones, plus un-gated pipelined runs. A case = (server, program, completion order); non-trivial = at least two calls were held at the same time or a failing request is in the stream; distinct by (program shape, order)"
 	thorough := c.Tier == "thorough"
+	c02Cfg = gCurCfg(c, "pipe", c02Cfg)
 	modelOK := gProbeModel(c, "c02.run "+c02Cfg+" -")
 	if !modelOK {
 		r.Skip("model comparison skipped: driver op `c02.run <cfg> <trace>` (lean/Sftp/Driver/C02.lean) is not served by the driver binary given with --model; the forced schedule of every case is recorded as a model trace in samples and failure inputs")
